@@ -1,18 +1,410 @@
 import SynKitModel.Match
+import Mathlib.Data.List.Basic
+import Mathlib.Data.List.Nodup
+import Mathlib.Data.List.Pairwise
 /-! Soundness and completeness of the back-tracking enumerator (shared engine). -/
 namespace SynKit.Match
 
+/-! ## Graph look-up lemmas -/
+
+theorem edge?_comm (G : LGraph) (u v : Nat) : G.edge? u v = G.edge? v u := by
+  unfold LGraph.edge?
+  congr 2
+  funext e
+  simp only [decide_eq_decide]
+  exact Or.comm
+
+theorem hasEdge_comm (G : LGraph) (u v : Nat) : G.hasEdge u v = G.hasEdge v u := by
+  unfold LGraph.hasEdge; rw [edge?_comm]
+
+/-- An edge found by `edge?` is an edge of the graph joining the two nodes. -/
+theorem edge?_some_mem (G : LGraph) (u v : Nat) (a : Attrs) (h : G.edge? u v = some a) :
+    ∃ e ∈ G.edges, e.2.2 = a ∧ ((e.1 = u ∧ e.2.1 = v) ∨ (e.1 = v ∧ e.2.1 = u)) := by
+  unfold LGraph.edge? at h
+  rw [Option.map_eq_some_iff] at h
+  obtain ⟨e, he, rfl⟩ := h
+  refine ⟨e, List.mem_of_find?_eq_some he, rfl, ?_⟩
+  have := List.find?_some he
+  simpa using this
+
+theorem edge?_isSome_of_mem (G : LGraph) (e : Nat × Nat × Attrs) (he : e ∈ G.edges) :
+    (G.edge? e.1 e.2.1).isSome = true := by
+  unfold LGraph.edge?
+  rw [Option.isSome_map, List.find?_isSome]
+  exact ⟨e, he, by simp⟩
+
+/-- In a graph without parallel edges the look-up of an edge returns that edge's attributes. -/
+theorem edge?_of_mem (G : LGraph) (hG : G.WF) (e : Nat × Nat × Attrs) (he : e ∈ G.edges) :
+    G.edge? e.1 e.2.1 = some e.2.2 := by
+  obtain ⟨-, -, hnd⟩ := hG
+  unfold LGraph.edge?
+  generalize G.edges = es at he hnd
+  induction es with
+  | nil => simp at he
+  | cons x xs ih =>
+    simp only [List.map_cons, List.nodup_cons] at hnd
+    rw [List.find?_cons]
+    by_cases hx : (decide ((x.1 = e.1 ∧ x.2.1 = e.2.1) ∨ (x.1 = e.2.1 ∧ x.2.1 = e.1))) = true
+    · rw [hx]
+      simp only [Option.map_some, Option.some.injEq]
+      rcases List.mem_cons.1 he with rfl | hmem
+      · rfl
+      · exfalso
+        apply hnd.1
+        simp only [decide_eq_true_eq] at hx
+        refine List.mem_map.2 ⟨e, hmem, ?_⟩
+        rcases hx with ⟨h1, h2⟩ | ⟨h1, h2⟩
+        · rw [h1, h2]
+        · rw [h1, h2, Nat.min_comm, Nat.max_comm]
+    · simp only [Bool.not_eq_true] at hx
+      rw [hx]
+      rcases List.mem_cons.1 he with rfl | hmem
+      · simp at hx
+      · exact ih hmem hnd.2
+
+theorem hasEdge_self_false (G : LGraph) (hG : G.WF) (v : Nat) : G.hasEdge v v = false := by
+  unfold LGraph.hasEdge
+  cases h : G.edge? v v with
+  | none => rfl
+  | some a =>
+    obtain ⟨e, he, -, hh⟩ := edge?_some_mem G v v a h
+    exfalso
+    have := (hG.2.1 e he).2.2
+    rcases hh with ⟨h1, h2⟩ | ⟨h1, h2⟩ <;> exact this (h1.trans h2.symm)
+
+/-! ## Mapping look-up lemmas -/
+
+theorem get?_of_mem (m : Mapping) (hn : (m.map (·.1)).Nodup) (p h : Nat) (hm : (p, h) ∈ m) :
+    m.get? p = some h := by
+  unfold Mapping.get?
+  induction m with
+  | nil => simp at hm
+  | cons x xs ih =>
+    simp only [List.map_cons, List.nodup_cons] at hn
+    rw [List.find?_cons]
+    rcases List.mem_cons.1 hm with rfl | hmem
+    · simp
+    · have : x.1 ≠ p := by
+        rintro rfl; exact hn.1 (List.mem_map.2 ⟨(x.1, h), hmem, rfl⟩)
+      simp only [this, decide_false]
+      exact ih hn.2 hmem
+
+theorem mem_of_get? (m : Mapping) (p h : Nat) (hm : m.get? p = some h) : (p, h) ∈ m := by
+  unfold Mapping.get? at hm
+  rw [Option.map_eq_some_iff] at hm
+  obtain ⟨x, hx, rfl⟩ := hm
+  have h1 := List.mem_of_find?_eq_some hx
+  have h2 := List.find?_some hx
+  simp only [decide_eq_true_eq] at h2
+  rw [← h2]; exact h1
+
+theorem get?_isSome_of_mem_fst (m : Mapping) (p : Nat) (hp : p ∈ m.map (·.1)) :
+    ∃ h, m.get? p = some h ∧ (p, h) ∈ m := by
+  cases hg : m.get? p with
+  | some h => exact ⟨h, rfl, mem_of_get? m p h hg⟩
+  | none =>
+    exfalso
+    unfold Mapping.get? at hg
+    rw [Option.map_eq_none_iff, List.find?_eq_none] at hg
+    obtain ⟨x, hx, rfl⟩ := List.mem_map.1 hp
+    exact hg x hx (by simp)
+
+/-! ## The enumerator -/
+
+section Engine
+variable (sel : Sel) (induced : Bool) (H P : LGraph)
+
+/-- `new` (most recent first) is a chain of accepted extensions on top of `acc`. -/
+def ValidExt (acc : Mapping) : Mapping → Prop
+  | [] => True
+  | (p, h) :: rest => ValidExt acc rest ∧ h ∈ H.ids ∧ extendOk sel induced H P (rest ++ acc) p h = true
+
+theorem validExt_snoc (acc new : Mapping) (p h : Nat) :
+    ValidExt sel induced H P acc (new ++ [(p, h)]) ↔
+      (h ∈ H.ids ∧ extendOk sel induced H P acc p h = true) ∧ ValidExt sel induced H P ((p, h) :: acc) new := by
+  induction new with
+  | nil => simp [ValidExt]
+  | cons x xs ih =>
+    obtain ⟨q, g⟩ := x
+    simp only [List.cons_append, ValidExt, ih, List.append_assoc]
+    constructor
+    · rintro ⟨⟨a, b⟩, c, d⟩; exact ⟨a, b, c, d⟩
+    · rintro ⟨a, b, c, d⟩; exact ⟨⟨a, b⟩, c, d⟩
+
+theorem mem_extend (ps : List Nat) (acc m : Mapping) :
+    m ∈ extend sel induced H P ps acc ↔
+      ∃ new, m = (new ++ acc).reverse ∧ new.map Prod.fst = ps.reverse ∧ ValidExt sel induced H P acc new := by
+  induction ps generalizing acc m with
+  | nil =>
+    simp only [extend, List.mem_singleton, List.reverse_nil, List.map_eq_nil_iff]
+    constructor
+    · intro h; exact ⟨[], by simp [h], rfl, trivial⟩
+    · rintro ⟨new, rfl, rfl, -⟩; rfl
+  | cons p ps ih =>
+    simp only [extend, List.mem_flatMap]
+    constructor
+    · rintro ⟨h, hh, hm⟩
+      split at hm
+      · next hok =>
+        obtain ⟨new, rfl, hfst, hv⟩ := (ih _ _).1 hm
+        exact ⟨new ++ [(p, h)], by simp, by simp [hfst],
+          (validExt_snoc sel induced H P acc new p h).2 ⟨⟨hh, hok⟩, hv⟩⟩
+      · simp at hm
+    · rintro ⟨new, rfl, hfst, hv⟩
+      rw [List.reverse_cons] at hfst
+      obtain ⟨init, ⟨q, h⟩, rfl⟩ : ∃ init x, new = init ++ [x] := by
+        cases hne : new.reverse with
+        | nil => simp_all
+        | cons x xs => exact ⟨xs.reverse, x, by simpa using congrArg List.reverse hne⟩
+      simp only [List.map_append, List.map_cons, List.map_nil] at hfst
+      obtain ⟨h1, h2⟩ := List.append_inj' hfst rfl
+      simp only [List.cons.injEq, and_true] at h2
+      subst h2
+      obtain ⟨⟨hh, hok⟩, hv'⟩ := (validExt_snoc sel induced H P acc init q h).1 hv
+      refine ⟨h, hh, ?_⟩
+      rw [if_pos hok]
+      exact (ih _ _).2 ⟨init, by simp, h1, hv'⟩
+
+/-- Compatibility of two assigned pairs: a pattern edge needs a host edge with matching
+attributes; with `induced` a pattern non-edge needs a host non-edge. -/
+def pairOk (x y : Nat × Nat) : Bool :=
+  match P.edge? x.1 y.1 with
+  | some pa => (match H.edge? x.2 y.2 with
+      | some ea => edgeOk sel ea pa
+      | none => false)
+  | none => !induced || !(H.hasEdge x.2 y.2)
+
+theorem pairOk_comm (x y : Nat × Nat) : pairOk sel induced H P x y = pairOk sel induced H P y x := by
+  unfold pairOk
+  rw [edge?_comm P, edge?_comm H, hasEdge_comm H]
+
+/-- The relation that has to hold between any two assigned pairs. -/
+def PairRel (x y : Nat × Nat) : Prop := x.2 ≠ y.2 ∧ pairOk sel induced H P x y = true
+
+theorem pairRel_symm : ∀ x y, PairRel sel induced H P x y → PairRel sel induced H P y x := by
+  rintro x y ⟨h1, h2⟩
+  exact ⟨Ne.symm h1, by rw [pairOk_comm]; exact h2⟩
+
+/-- What has to hold of every assigned pair on its own. -/
+def NodeCond (x : Nat × Nat) : Prop :=
+  x.2 ∈ H.ids ∧ nodeOk sel (H.attrs x.2) (P.attrs x.1) = true ∧ (induced = true → H.hasEdge x.2 x.2 = false)
+
+theorem extendOk_iff (acc : Mapping) (p h : Nat) :
+    extendOk sel induced H P acc p h = true ↔
+      (∀ y ∈ acc, PairRel sel induced H P (p, h) y) ∧
+      nodeOk sel (H.attrs h) (P.attrs p) = true ∧ (induced = true → H.hasEdge h h = false) := by
+  unfold extendOk PairRel pairOk
+  simp only [Bool.and_eq_true, Bool.not_eq_true', List.any_eq_false, decide_eq_true_eq, List.all_eq_true,
+    Bool.or_eq_true, Bool.not_eq_true']
+  constructor
+  · rintro ⟨⟨⟨h1, h2⟩, h3⟩, h4⟩
+    refine ⟨fun y hy => ⟨fun e => h1 y hy e.symm, h4 y hy⟩, h2, ?_⟩
+    intro hi; rcases h3 with h3 | h3
+    · rw [hi] at h3; cases h3
+    · exact h3
+  · rintro ⟨h1, h2, h3⟩
+    refine ⟨⟨⟨fun y hy e => (h1 y hy).1 e.symm, h2⟩, ?_⟩, fun y hy => (h1 y hy).2⟩
+    cases induced with
+    | false => exact Or.inl rfl
+    | true => exact Or.inr (h3 rfl)
+
+theorem validExt_nil_iff (l : Mapping) :
+    ValidExt sel induced H P [] l ↔
+      l.Pairwise (PairRel sel induced H P) ∧ ∀ x ∈ l, NodeCond sel induced H P x := by
+  induction l with
+  | nil => simp [ValidExt]
+  | cons x xs ih =>
+    obtain ⟨p, h⟩ := x
+    simp only [ValidExt, List.append_nil, ih, List.pairwise_cons, List.forall_mem_cons, extendOk_iff, NodeCond]
+    constructor
+    · rintro ⟨⟨a, b⟩, c, d, e, f⟩; exact ⟨⟨d, a⟩, ⟨c, e, f⟩, b⟩
+    · rintro ⟨⟨d, a⟩, ⟨c, e, f⟩, b⟩; exact ⟨⟨a, b⟩, c, d, e, f⟩
+
+/-- Characterisation of the enumerator's output in the pattern's node order. -/
+theorem mem_extend_nil (m : Mapping) :
+    m ∈ extend sel induced H P P.ids [] ↔
+      m.map Prod.fst = P.ids ∧ m.Pairwise (PairRel sel induced H P) ∧ ∀ x ∈ m, NodeCond sel induced H P x := by
+  rw [mem_extend]
+  constructor
+  · rintro ⟨new, rfl, hfst, hv⟩
+    rw [validExt_nil_iff] at hv
+    refine ⟨?_, ?_, ?_⟩
+    · rw [List.append_nil, List.map_reverse, hfst, List.reverse_reverse]
+    · rw [List.append_nil, List.pairwise_reverse]
+      exact hv.1.imp (fun {a b} hab => pairRel_symm sel induced H P a b hab)
+    · intro x hx; rw [List.append_nil, List.mem_reverse] at hx; exact hv.2 x hx
+  · rintro ⟨hfst, hp, hn⟩
+    refine ⟨m.reverse, by simp, by rw [List.map_reverse, hfst], ?_⟩
+    rw [validExt_nil_iff]
+    refine ⟨?_, fun x hx => hn x (List.mem_reverse.1 hx)⟩
+    rw [List.pairwise_reverse]
+    exact hp.imp (fun {a b} hab => pairRel_symm sel induced H P a b hab)
+
+
+/-- The specification the enumerator meets, uniformly in the `induced` flag. -/
+def GenSpec (m : Mapping) : Prop :=
+  IsMono sel H P m ∧
+  (induced = true → ∀ p q hp hq, m.get? p = some hp → m.get? q = some hq →
+      P.hasEdge p q = false → H.hasEdge hp hq = false)
+
+theorem genSpec_iff (hP : P.WF) (m : Mapping) :
+    GenSpec sel induced H P m ↔
+      m.map Prod.fst = P.ids ∧ m.Pairwise (PairRel sel induced H P) ∧ ∀ x ∈ m, NodeCond sel induced H P x := by
+  constructor
+  · rintro ⟨⟨hfst, hnd, hnode, hedge⟩, hind⟩
+    have hfn : (m.map (·.1)).Nodup := by
+      have : m.map (·.1) = P.ids := hfst
+      rw [this]; exact hP.1
+    refine ⟨hfst, ?_, ?_⟩
+    · have hmn : m.Nodup := List.Nodup.of_map _ hfn
+      refine hmn.pairwise_of_forall_ne ?_
+      rintro ⟨p, h⟩ ha ⟨q, g⟩ hb hne
+      have hgp := get?_of_mem m hfn p h ha
+      have hgq := get?_of_mem m hfn q g hb
+      have hpq : p ≠ q := by
+        rintro rfl
+        rw [hgp] at hgq
+        exact hne (by rw [Option.some.inj hgq])
+      refine ⟨?_, ?_⟩
+      · intro e
+        exact hne (List.inj_on_of_nodup_map hnd ha hb e)
+      · unfold pairOk
+        cases hpe : P.edge? p q with
+        | none =>
+          simp only
+          cases hi : induced with
+          | false => rfl
+          | true =>
+            have : P.hasEdge p q = false := by unfold LGraph.hasEdge; rw [hpe]; rfl
+            simp [hind hi p q h g hgp hgq this]
+        | some pa =>
+          simp only
+          obtain ⟨e, he, rfl, hends⟩ := edge?_some_mem P p q pa hpe
+          obtain ⟨hu, hv, ea, h1, h2, h3, h4⟩ := hedge e he
+          rcases hends with ⟨e1, e2⟩ | ⟨e1, e2⟩
+          · rw [e1, hgp] at h1; rw [e2, hgq] at h2
+            cases h1; cases h2
+            rw [h3]; exact h4
+          · rw [e1, hgq] at h1; rw [e2, hgp] at h2
+            cases h1; cases h2
+            rw [edge?_comm, h3]; exact h4
+    · rintro ⟨p, h⟩ hx
+      refine ⟨(hnode _ hx).1, (hnode _ hx).2, ?_⟩
+      intro hi
+      have hgp := get?_of_mem m hfn p h hx
+      exact hind hi p p h h hgp hgp (hasEdge_self_false P hP p)
+  · rintro ⟨hfst, hpw, hnc⟩
+    have hfn : (m.map (·.1)).Nodup := by
+      have : m.map (·.1) = P.ids := hfst
+      rw [this]; exact hP.1
+    have hsymm : Std.Symm (PairRel sel induced H P) := ⟨fun x y => pairRel_symm sel induced H P x y⟩
+    refine ⟨⟨hfst, ?_, fun x hx => ⟨(hnc x hx).1, (hnc x hx).2.1⟩, ?_⟩, ?_⟩
+    · rw [List.Nodup, List.pairwise_map]
+      exact hpw.imp (fun {a b} hab => hab.1)
+    · intro e he
+      obtain ⟨h1, h2, h3⟩ := hP.2.1 e he
+      have h1' : e.1 ∈ m.map (·.1) := by
+        have : m.map (·.1) = P.ids := hfst
+        rw [this]; exact h1
+      have h2' : e.2.1 ∈ m.map (·.1) := by
+        have : m.map (·.1) = P.ids := hfst
+        rw [this]; exact h2
+      obtain ⟨hu, hgu, hmu⟩ := get?_isSome_of_mem_fst m e.1 h1'
+      obtain ⟨hv, hgv, hmv⟩ := get?_isSome_of_mem_fst m e.2.1 h2'
+      have hne : ((e.1, hu) : Nat × Nat) ≠ (e.2.1, hv) := fun hh => h3 (congrArg Prod.fst hh)
+      have hr := (hpw.forall hmu hmv hne).2
+      unfold pairOk at hr
+      simp only [edge?_of_mem P hP e he] at hr
+      cases hhe : H.edge? hu hv with
+      | none => rw [hhe] at hr; cases hr
+      | some ea => rw [hhe] at hr; exact ⟨hu, hv, ea, hgu, hgv, hhe, hr⟩
+    · intro hi p q hp hq hgp hgq hpe
+      have hmp := mem_of_get? m p hp hgp
+      have hmq := mem_of_get? m q hq hgq
+      by_cases hpq : p = q
+      · subst hpq
+        rw [hgp] at hgq; cases hgq
+        exact (hnc _ hmp).2.2 hi
+      · have hne : ((p, hp) : Nat × Nat) ≠ (q, hq) := fun hh => hpq (congrArg Prod.fst hh)
+        have hr := (hpw.forall hmp hmq hne).2
+        unfold pairOk at hr
+        have : P.edge? p q = none := by
+          unfold LGraph.hasEdge at hpe
+          cases hh : P.edge? p q with
+          | none => rfl
+          | some a => rw [hh] at hpe; cases hpe
+        simp only [this, hi] at hr
+        simpa using hr
+
+end Engine
+
+/-! ## The five engine theorems -/
+
 theorem mem_allMonos (sel : Sel) (H P : LGraph) (hP : P.WF) (m : Mapping) :
-    m ∈ allMonos sel H P ↔ IsMono sel H P m := by sorry
+    m ∈ allMonos sel H P ↔ IsMono sel H P m := by
+  unfold allMonos
+  rw [mem_extend_nil, ← genSpec_iff sel false H P hP m]
+  unfold GenSpec
+  simp
 
 theorem mem_allInduced (sel : Sel) (H P : LGraph) (hP : P.WF) (m : Mapping) :
-    m ∈ allInduced sel H P ↔ IsInduced sel H P m := by sorry
+    m ∈ allInduced sel H P ↔ IsInduced sel H P m := by
+  unfold allInduced
+  rw [mem_extend_nil, ← genSpec_iff sel true H P hP m]
+  unfold GenSpec IsInduced
+  simp
 
-theorem allMonos_nodup (sel : Sel) (H P : LGraph) (hH : H.ids.Nodup) : (allMonos sel H P).Nodup := by sorry
+/-- Every output of `extend` starts with the assignment made so far. -/
+theorem prefix_of_mem_extend (sel : Sel) (induced : Bool) (H P : LGraph) (ps : List Nat) (acc m : Mapping)
+    (h : m ∈ extend sel induced H P ps acc) : acc.reverse <+: m := by
+  obtain ⟨new, rfl, -, -⟩ := (mem_extend sel induced H P ps acc m).1 h
+  rw [List.reverse_append]
+  exact List.prefix_append _ _
 
-theorem allInduced_nodup (sel : Sel) (H P : LGraph) (hH : H.ids.Nodup) : (allInduced sel H P).Nodup := by sorry
+theorem extend_nodup (sel : Sel) (induced : Bool) (H P : LGraph) (hH : H.ids.Nodup) (ps : List Nat) (acc : Mapping) :
+    (extend sel induced H P ps acc).Nodup := by
+  induction ps generalizing acc with
+  | nil => simp [extend]
+  | cons p ps ih =>
+    simp only [extend]
+    rw [List.nodup_flatMap]
+    refine ⟨?_, ?_⟩
+    · intro h _
+      split
+      · exact ih _
+      · exact List.nodup_nil
+    · refine hH.pairwise_of_forall_ne ?_
+      intro h _ h' _ hne
+      show List.Disjoint _ _
+      intro m hm hm'
+      simp only at hm hm'
+      split at hm
+      · split at hm'
+        · have p1 := prefix_of_mem_extend sel induced H P ps _ m hm
+          have p2 := prefix_of_mem_extend sel induced H P ps _ m hm'
+          have := List.prefix_of_prefix_length_le p1 p2 (by simp)
+          have := this.eq_of_length (by simp)
+          simp only [List.reverse_cons, List.append_cancel_left_eq, List.cons.injEq, Prod.mk.injEq, true_and,
+            and_true] at this
+          exact hne this
+        · simp at hm'
+      · simp at hm
+
+theorem allMonos_nodup (sel : Sel) (H P : LGraph) (hH : H.ids.Nodup) : (allMonos sel H P).Nodup :=
+  extend_nodup sel false H P hH P.ids []
+
+theorem allInduced_nodup (sel : Sel) (H P : LGraph) (hH : H.ids.Nodup) : (allInduced sel H P).Nodup :=
+  extend_nodup sel true H P hH P.ids []
 
 theorem isoDecide_iff (sel : Sel) (H P : LGraph) (hP : P.WF) :
-    isoDecide sel H P = true ↔ ∃ m, IsIso sel H P m := by sorry
+    isoDecide sel H P = true ↔ ∃ m, IsIso sel H P m := by
+  unfold isoDecide IsIso
+  simp only [Bool.and_eq_true, decide_eq_true_eq, Bool.not_eq_true', List.isEmpty_eq_false_iff]
+  constructor
+  · rintro ⟨hlen, hne⟩
+    obtain ⟨m, hm⟩ := List.exists_mem_of_ne_nil _ hne
+    exact ⟨m, (mem_allInduced sel H P hP m).1 hm, hlen⟩
+  · rintro ⟨m, hm, hlen⟩
+    exact ⟨hlen, List.ne_nil_of_mem ((mem_allInduced sel H P hP m).2 hm)⟩
 
 end SynKit.Match
